@@ -126,12 +126,15 @@ def run_forked(func, *, workdir: Path, wall_cap: float = 120.0, sample: float = 
             last_cpu = cpu
         if quiet >= quiet_samples:
             # witness: python stack of the main process
-            try:
-                os.kill(pid, signal.SIGUSR1)
-                time.sleep(0.2)
-            except ProcessLookupError:
-                pass
-            stack = stack_path.read_text()[-1500:] if stack_path.exists() else ""
+            # the other members of the group inherited the handler (same file): their stacks follow, one after
+            # the other so that the dumps do not interleave
+            for member_pid in [pid] + [m[0] for m in members if m[0] != pid]:
+                try:
+                    os.kill(member_pid, signal.SIGUSR1)
+                    time.sleep(0.25)
+                except ProcessLookupError:
+                    pass
+            stack = stack_path.read_text()[-16000:] if stack_path.exists() else ""
             outcome = dict(outcome="quiescent", processes=[(m[0], m[1]) for m in members], stack=stack,
                            after_s=round(time.time() - t0, 1))
             break
